@@ -1545,6 +1545,10 @@ class Interp:
                 hi = self.eval(e.slice.upper, frame) if e.slice.upper else None
                 if e.slice.step is not None:
                     raise Untranslatable("slice with a step")
+                if isinstance(o, (str, SStr)) and lo == 1 and hi == -1 and not isinstance(lo, bool):
+                    if isinstance(o, str):
+                        return o[1:-1]
+                    return SStr.var("((%s).drop 1).dropLast" % o.lean())
                 if isinstance(o, SPath):
                     if lo is None and hi == -1:
                         return SPath("(%s).dropLast" % o.lean())
@@ -3097,3 +3101,181 @@ def translate_propagate(N, T):
         else:
             out.append((name, params, STATE, vals[0], None, 1))
     return out
+
+
+# ---------------------------------------------------------------------------------------------
+# ElasticsearchQueryBuilder: the decisions of the leaves and of the AND / OR mix (elasticsearch/visitor.py)
+# ---------------------------------------------------------------------------------------------
+
+def translate_es(V, T):
+    """(tables, defs):
+    * tables: for every concrete class and both default operators, `_is_must` / `_is_should`; for every pair
+      (parent class, child class) and both default operators, whether `_yield_nested_children` refuses the child;
+      which kind of operation `visit_unknown_operation` builds;
+    * defs [(lean name, params, type, body | None, error | None, paths)]: `visit_word` and `visit_phrase` on a symbolic
+      node under a symbolic context (analysed marker absent / present, field prefix absent / present, a name handed
+      down or not) for a builder with symbolic `default_field`, `_not_analyzed_fields`, `match_word_as_phrase`:
+      the keyword arguments handed to `es_item_factory.build`; `visit_proximity`: which attribute receives the
+      degree."""
+    B = V.ElasticsearchQueryBuilder
+    classes = list(PRINT_CLASSES)
+
+    def builder(it, default_operator):
+        me = Obj(B, lean="@self")
+        me.attrs["default_operator"] = default_operator
+        me.attrs["default_field"] = SStr.var("dflt")
+        me.attrs["_not_analyzed_fields"] = SColl("na")
+        me.attrs["match_word_as_phrase"] = SBool("asPhrase")
+        return me
+
+    def concrete(fn_name, default_operator, make_args):
+        res = {}
+
+        def run(oracle):
+            it = Interp(oracle)
+            me = builder(it, default_operator)
+            args = make_args(it, me)
+            f = it.getattr_(me, fn_name, None)
+            try:
+                r = it.call(f, args, {}, None)
+            except PyRaise as e:
+                return ("raise", e.cls.__name__)
+            if isinstance(r, ListObj):
+                it.normalize_list(r)
+                return ("yield", len(r.segs))
+            return ("value", r)
+        paths = explore(run)
+        if len(paths) != 1:
+            raise Untranslatable("%s depends on more than the classes and the default operator" % fn_name)
+        return paths[0][1]
+
+    tables = {"is_must": [], "is_should": [], "mix": [], "unknown": []}
+    for cname in classes:
+        row_m, row_s = [], []
+        for dop in (B.MUST, B.SHOULD):
+            for name, row in (("_is_must", row_m), ("_is_should", row_s)):
+                kind, val = concrete(name, dop, lambda it, me, cname=cname: [class_inputs(T, cname)[0]])
+                if kind != "value" or not isinstance(val, bool):
+                    raise Untranslatable("%s does not return a boolean" % name)
+                row.append(val)
+        tables["is_must"].append((cname, row_m[0], row_m[1]))
+        tables["is_should"].append((cname, row_s[0], row_s[1]))
+    for pc in classes:
+        for cc in classes:
+            row = []
+            for dop in (B.MUST, B.SHOULD):
+                def args(it, me, pc=pc, cc=cc):
+                    me.attrs["_get_operator_extract"] = ("rechook", "_get_operator_extract", me)
+                    it.rec_hooks["_get_operator_extract"] = lambda interp, obj, a, k: SStr.var("extract")
+                    parent = class_inputs(T, pc)[0]
+                    child = class_inputs(T, cc)[0]
+                    return [parent, ListObj([("elem", child)])]
+                kind, val = concrete("_yield_nested_children", dop, args)
+                if kind == "raise":
+                    if val != "OrAndAndOnSameLevel":
+                        raise Untranslatable("_yield_nested_children raises %s" % val)
+                    row.append(True)
+                elif kind == "yield" and val == 1:
+                    row.append(False)
+                else:
+                    raise Untranslatable("_yield_nested_children neither yields the child nor raises")
+            if row[0] or row[1]:
+                tables["mix"].append((pc, cc, row[0], row[1]))
+    for dop in (B.MUST, B.SHOULD):
+        def args(it, me):
+            for nm in ("_should_operation", "_must_operation"):
+                me.attrs[nm] = ("rechook", nm, me)
+            it.rec_hooks["_should_operation"] = lambda interp, obj, a, k: ListObj([("elem", "should")])
+            it.rec_hooks["_must_operation"] = lambda interp, obj, a, k: ListObj([("elem", "must")])
+            return [class_inputs(T, "UnknownOperation")[0], {}]
+
+        def run(oracle, dop=dop):
+            it = Interp(oracle)
+            me = builder(it, dop)
+            a = args(it, me)
+            r = it.call(it.getattr_(me, "visit_unknown_operation", None), a, {}, None)
+            if isinstance(r, list):
+                r = ListObj([("elem", x) for x in r])
+            it.normalize_list(r)
+            return r.segs[0][1]
+        paths = explore(run)
+        if len(paths) != 1 or paths[0][1] not in ("must", "should"):
+            raise Untranslatable("visit_unknown_operation")
+        tables["unknown"].append((dop, paths[0][1]))
+
+    # ---- the leaves
+    defs = []
+
+    def opt_str_lean(v):
+        if v is None:
+            return "none"
+        if isinstance(v, SOpt):
+            return v.lean()
+        if isinstance(v, (str, SStr)):
+            return "(some %s)" % str_lean(v)
+        raise Untranslatable("not an optional string: %r" % (v,))
+
+    def fields_lean(v):
+        if isinstance(v, SColl):
+            return v.lean()
+        if isinstance(v, ListObj) and all(k == "elem" and isinstance(x, (str, SStr)) for k, x in v.segs):
+            return "[" + ", ".join(str_lean(x) for _, x in v.segs) + "]"
+        raise Untranslatable("not a list of field names: %r" % (v,))
+
+    def leaf_run(meth, cname, marker, prefix):
+        def run(oracle):
+            it = Interp(oracle)
+            me = builder(it, B.SHOULD)
+            captured = {}
+
+            def rec_build(interp, obj, a, k):
+                captured["cls"] = a[0].__name__ if a and isinstance(a[0], type) else None
+                captured["kw"] = k
+                return Obj(None, lean="@eitem")
+            fac = Obj(None, lean="@factory")
+            fac.attrs["build"] = ("rechook", "build", fac)
+            it.rec_hooks["build"] = rec_build
+            me.attrs["es_item_factory"] = fac
+            node, params = class_inputs(T, cname)
+            node.attrs["_luqum_name"] = SOpt("nodeName", "str")
+            ctx = {"name": SOpt("ctxName", "str")}
+            if marker:
+                ctx[B.CONTEXT_ANALYZE_MARKER] = SBool("marker")
+            if prefix:
+                ctx[B.CONTEXT_FIELD_PREFIX] = SColl("pfx")
+            try:
+                r = it.call(it.getattr_(me, meth, None), [node, ctx], {}, None)
+            except PyRaise as e:
+                return emit_raise(e)
+            if isinstance(r, list):
+                r = ListObj([("elem", x) for x in r])
+            it.normalize_list(r)
+            if len(r.segs) != 1 or not isinstance(r.segs[0][1], Obj) or r.segs[0][1].lean != "@eitem":
+                raise Untranslatable("%s does not yield exactly the built item" % meth)
+            kw = dict(captured["kw"])
+            q = kw.pop("q", kw.pop("phrase", None))
+            method = kw.pop("method", None)
+            fields = kw.pop("fields", None)
+            name = kw.pop("_name", None)
+            if kw:
+                raise Untranslatable("unexpected arguments %s" % sorted(kw))
+            return "Except.ok { cls := %s, q := %s, method := %s, fields := %s, name := %s }" % (
+                lean_string(captured["cls"] or "?"), str_lean(q), opt_str_lean(method), fields_lean(fields),
+                opt_str_lean(name))
+        return run
+    for meth, cname in (("visit_word", "Word"), ("visit_phrase", "Phrase")):
+        for marker in (False, True):
+            for prefix in (False, True):
+                name = "%s_%s_%s" % (meth, "marker" if marker else "nomarker", "prefix" if prefix else "noprefix")
+                params = ["(dflt : Str)", "(na : List Str)", "(asPhrase : Bool)", "(value : Str)",
+                          "(nodeName ctxName : Option Str)"]
+                if marker:
+                    params.append("(marker : Bool)")
+                if prefix:
+                    params.append("(pfx : List Str)")
+                try:
+                    paths = explore(leaf_run(meth, cname, marker, prefix))
+                    defs.append((name, params, "LeafArgs", build_tree(paths, 0, 1), None, len(paths)))
+                except Untranslatable as e:
+                    defs.append((name, None, "LeafArgs", None, str(e), 0))
+    return tables, defs
